@@ -520,6 +520,16 @@ func (c16) Case(c *core.Ctx) {
 		file("Maps.JsonFile(safe)", mvs.JsonFile(fn, true), jss)
 		file("Maps.JsonFileIndent", mvs.JsonFileIndent(fn, prefix, indent), jis)
 		file("Maps.JsonFileIndent(safe)", mvs.JsonFileIndent(fn, prefix, indent, true), jiss)
+		if r.Intn(4) == 0 {
+			// a Maps value without members, written over an existing file: the concatenation of zero encodings is the empty file
+			var none [][]byte
+			for i, w := range []func() error{func() error { return mxj.Maps{}.XmlFile(fn) }, func() error { return mxj.Maps{}.XmlFileIndent(fn, prefix, indent) },
+				func() error { return mxj.Maps{}.JsonFile(fn) }, func() error { return mxj.Maps{}.JsonFileIndent(fn, prefix, indent) }} {
+				os.WriteFile(fn, bytes.Repeat([]byte("<stale/>{\"stale\":1}\n"), 50), 0o644)
+				file([]string{"Maps{}.XmlFile", "Maps{}.XmlFileIndent", "Maps{}.JsonFile", "Maps{}.JsonFileIndent"}[i]+"(over existing file)", w(), none)
+			}
+			c.Count("maps-forms:empty-Maps-over-existing-file")
+		}
 		os.Remove(fn)
 	}
 }
